@@ -52,6 +52,93 @@ def hence_clause(res, case, C):
     return out
 
 
+def _call(engine, name, nparams, cffi_args):
+    from tensora.compile import tensor_cdefs
+
+    ftype = f"int32_t (*)({', '.join(['void *'] * nparams)})"
+    fptr = tensor_cdefs.cast(ftype, engine.get_function_address(name))
+    return fptr(*cffi_args)
+
+
+def llvm_kernels(req, bridge, C):
+    """Build the module for a case, JIT it with tensora's own compile_module and run the requested kernels.
+    evaluate on a fresh output; assemble then compute on a second output."""
+    import gc
+
+    from tensora import Tensor
+    from tensora.compile import allocate_taco_structure, take_ownership_of_arrays
+    from tensora.compile._compile_llvm import compile_module
+
+    case = req["case"]
+    kinds = req["kinds"]
+    status, mod = bridge.build_module(case, kinds, capacity=case.get("capacity"))
+    if status != "ok":
+        return {"nobuild": status, "why": str(mod)}
+    try:
+        engine = compile_module(mod)
+    except Exception as e:  # noqa: BLE001
+        return {"llvm_compile_error": f"{type(e).__name__}: {e}"[:400]}
+    _prob, asg, _f = bridge.problem_of(case)
+    fns = bridge.functions_of(mod)
+    params = [d.name.name for d in next(iter(fns.values())).parameters]
+    oname = case["target"][0]
+    ins = {
+        nm: C.tensor_from_stored(C.tensor_dims(asg, case["sizes"], nm), case["formats"][nm], s)
+        for nm, s in case["inputs"].items()
+    }
+    omodes, oord = C.fmt_parts(case["formats"][oname])
+    odims = C.tensor_dims(asg, case["sizes"], oname)
+
+    def fresh():
+        return Tensor(allocate_taco_structure(tuple(0 if m == "d" else 1 for m in omodes), tuple(odims), tuple(oord)))
+
+    rep = {"rc": {}, "out": {}}
+    if "evaluate" in kinds:
+        o = fresh()
+        args = [o.cffi_tensor if nm == oname else ins[nm].cffi_tensor for nm in params]
+        rep["rc"]["evaluate"] = _call(engine, "evaluate", len(params), args)
+        rep["out"]["evaluate"] = C.raw_of_tensor(o)
+        take_ownership_of_arrays(o.cffi_tensor)
+    if "assemble" in kinds and "compute" in kinds:
+        o2 = fresh()
+        args = [o2.cffi_tensor if nm == oname else ins[nm].cffi_tensor for nm in params]
+        rep["rc"]["assemble"] = _call(engine, "assemble", len(params), args)
+        r = C.raw_of_tensor(o2)
+        r["vals"] = None
+        rep["out"]["assemble"] = r
+        rep["rc"]["compute"] = _call(engine, "compute", len(params), args)
+        rep["out"]["compute"] = C.raw_of_tensor(o2)
+        take_ownership_of_arrays(o2.cffi_tensor)
+    rep["inputs_after"] = {nm: C.raw_of_tensor(t) for nm, t in ins.items()}
+    gc.collect()
+    return rep
+
+
+def llvm_program(req, bridge, C):
+    """JIT a pickled IR module (hex) and run its single-tensor function ``evaluate`` on each environment.
+    env: {"ints": [..4], "floats": [...], "slots": n} -> vals after the call (as floats)."""
+    import pickle
+
+    from tensora.compile import allocate_taco_structure, tensor_cdefs
+    from tensora.compile._compile_llvm import compile_module
+
+    mod = pickle.loads(bytes.fromhex(req["module"]))
+    try:
+        engine = compile_module(mod)
+    except Exception as e:  # noqa: BLE001
+        return {"llvm_compile_error": f"{type(e).__name__}: {e}"[:400], "where": bridge.innermost_frame(e)}
+    outs = []
+    for env in req["envs"]:
+        ct = allocate_taco_structure((0, 0, 0, 0), (0, 0, 0, 0), (0, 1, 2, 3))
+        dims = tensor_cdefs.new("int32_t[]", env["ints"])
+        ct.dimensions = dims
+        vals = tensor_cdefs.new("double[]", list(env["floats"]) + [0.0] * env["slots"])
+        ct.vals = vals
+        rc = _call(engine, "evaluate", 1, [ct])
+        outs.append({"rc": rc, "vals": list(vals[0 : len(env["floats"]) + env["slots"]]), "ints": list(dims[0:4])})
+    return {"outs": outs}
+
+
 def main():
     out = os.fdopen(os.dup(1), "w")
     os.dup2(2, 1)
@@ -99,6 +186,10 @@ def main():
                             rep["hence"] = hence_clause(res, case, C)
                         else:
                             rep["hence"] = {}
+            elif op == "llvm_kernels":
+                rep = llvm_kernels(req, bridge, C)
+            elif op == "llvm_program":
+                rep = llvm_program(req, bridge, C)
             else:
                 rep = {"error": f"unknown op {op}"}
         except Exception as e:  # noqa: BLE001
